@@ -6,6 +6,7 @@ use serde_json::Value;
 
 pub mod c01;
 pub mod c02;
+pub mod c03;
 pub mod c07;
 pub mod c13;
 pub mod c14;
@@ -24,6 +25,7 @@ pub fn lookup(id: &str) -> Option<Entry> {
     let e = match id {
         "C01" => Entry { id: "C01", run: c01::run, replay: c01::replay },
         "C02" => Entry { id: "C02", run: c02::run, replay: c02::replay },
+        "C03" => Entry { id: "C03", run: c03::run, replay: c03::replay },
         "C07" => Entry { id: "C07", run: c07::run, replay: c07::replay },
         "C13" => Entry { id: "C13", run: c13::run, replay: c13::replay },
         "C14" => Entry { id: "C14", run: c14::run, replay: c14::replay },
